@@ -16,7 +16,7 @@ CHECKS = {
     ref="DESIGN.md section 4, C19"),
  "C07": dict(
     technique="property-based testing (Hypothesis) of readselection against an interval-counting oracle (cap + maximality)",
-    text="Generated read sets (gapped / paired-like reads, preferred sources, bridging on/off, caps 1-7) are run through readselection; the oracle recounts span coverage and checks subset, cap and maximality. Thousands of distinct at-the-cap cases per run; no proof of absence.",
+    text="Generated read sets (gapped / paired-like reads, preferred sources, bridging on/off, caps 1-7) are run through readselection; the oracle recounts span coverage and checks subset, cap and maximality; whatshap phase runs (single, trio, phased-VCF pseudo reads as preferred source) are checked against the cap through the trace hook. Thousands of distinct at-the-cap cases per run; no proof of absence.",
     note="Trusted: the interval-counting oracle; reads cover >= 2 variants (documented precondition).",
     ref="DESIGN.md section 4, C07"),
  "C01": dict(
@@ -30,8 +30,8 @@ CHECKS = {
     note="Trusted: the HMM definition in vlib/oracles.py (emission constants, prior normalisation, Bernoulli transition) shared with the documented model; near-ties within 1e-5 are not judged.",
     ref="DESIGN.md section 4, C08"),
  "C13": dict(
-    technique="property-based testing (Hypothesis) over a structured VCF model; htslib-parsed input/output diff, idempotence and unphase-after-phase round trips",
-    text="Generated VCFs of full variety (ploidy 1-6 per call, missing / partial genotypes, GT-less records, PS/HP/PQ with Integer or String PS, multi-ALT, duplicates) are unphased in-process; input and output are parsed with htslib and compared field by field; idempotence and unphase(phase(x)) = unphase(x) are checked as metamorphic relations.",
+    technique="property-based testing (Hypothesis) over a structured VCF model; htslib-parsed input/output diff, idempotence and unphase-after-phase / unphase-after-polyphase round trips",
+    text="Generated VCFs of full variety (ploidy 1-6 per call, missing / partial genotypes, GT-less records, PS/HP/PQ with Integer or String PS, multi-ALT, duplicates) are unphased in-process; input and output are parsed with htslib and compared field by field; idempotence, unphase(phase(x)) = unphase(x) and unphase(polyphase(x)) = unphase(x) (ploidy 2-6) are checked as metamorphic relations.",
     note="Trusted: htslib (pysam) parsing on both sides; well-formed = complete header and sorted positions; floats compared at 5 significant digits.",
     ref="DESIGN.md section 4, C13"),
  "C12": dict(
@@ -87,7 +87,7 @@ CHECKS = {
  "C10": dict(
     technique="property-based testing (Hypothesis): generated phased VCF + mixed BAM through haplotag; conservation diff, ground-truth / quality-model decision oracle, metamorphic haplotype relabelling",
     text="Error-free reads of known haplotypes (single, paired, supplementary, secondary, duplicate, unmapped, stale tags, BX clouds) are tagged with drawn options; the output must be the input record for record except HP/PS/PC, tagged reads must carry their true haplotype in the reported phase set, and swapping the haplotypes of one phase set in the VCF must flip HP for exactly that set. A second campaign in --no-reference mode with planted mismatches and per-base qualities (ploidy 2-4) checks HP = strict arg-max of summed quality, PC = best - second, ties untagged.",
-    note="Trusted: read renderer, pysam for BAM comparison; BX cloud pooling is validity-checked only (it is order dependent).",
+    note="Trusted: read renderer, pysam for BAM comparison; BX cloud pooling is modelled exactly in the quality campaign when the clouds of a barcode are separated by more than the distance cut-off (otherwise order dependent, validity only).",
     ref="DESIGN.md section 4, C10"),
  "C17": dict(
     technique="property-based testing (Hypothesis) of the history model-phasing -> haplotag -> partial unphase -> haplotagphase; oracle = the original phasing",
